@@ -72,17 +72,21 @@ def locked(name):
 
 
 def sh(cmd, cwd=None, env=None, timeout=None, inp=None):
-    """run, return (rc, stdout+stderr)"""
+    """run, return (rc, stdout+stderr); on timeout the whole process group is killed."""
+    import signal
+    p = subprocess.Popen(cmd, cwd=cwd, env=env, stdin=subprocess.PIPE if inp is not None else None,
+                         stdout=subprocess.PIPE, stderr=subprocess.STDOUT, shell=isinstance(cmd, str), text=True,
+                         start_new_session=True)
     try:
-        p = subprocess.run(cmd, cwd=cwd, env=env, timeout=timeout, input=inp,
-                           stdout=subprocess.PIPE, stderr=subprocess.STDOUT,
-                           shell=isinstance(cmd, str), text=True)
-        return p.returncode, p.stdout
-    except subprocess.TimeoutExpired as e:
-        out = e.stdout or ""
-        if isinstance(out, bytes):
-            out = out.decode("utf-8", "replace")
-        return 124, out + "\n[timeout after %ss]" % timeout
+        out, _ = p.communicate(inp, timeout=timeout)
+        return p.returncode, out
+    except subprocess.TimeoutExpired:
+        try:
+            os.killpg(p.pid, signal.SIGKILL)
+        except ProcessLookupError:
+            pass
+        out, _ = p.communicate()
+        return 124, (out or "") + "\n[timeout after %ss]" % timeout
 
 
 # --------------------------------------------------------------------------
